@@ -6,7 +6,7 @@ use datasketches::tdigest::{TDigest, TDigestMut};
 use crate::rt::Rng;
 use crate::spec::tdigest as spec;
 
-pub const SHAPES: [&str; 16] = [
+pub const SHAPES: [&str; 17] = [
     "sorted",
     "reversed",
     "uniform",
@@ -23,6 +23,7 @@ pub const SHAPES: [&str; 16] = [
     "all-equal",
     "sawtooth",
     "loguniform-wide",
+    "both-signs-near-f64-max",
 ];
 
 /// n values of the given shape (finite; callers may sprinkle NaN/inf separately)
@@ -98,6 +99,13 @@ pub fn gen_values(rng: &mut Rng, shape: &str, n: usize) -> Vec<f64> {
         "loguniform-wide" => {
             for _ in 0..n {
                 v.push((2.0f64).powf(rng.f64() * 600.0 - 300.0));
+            }
+        }
+        "both-signs-near-f64-max" => {
+            // differences of two such values overflow f64: the mean update has to be overflow safe
+            for _ in 0..n {
+                let m = (0.95 + rng.f64() * 0.84) * 1e308;
+                v.push(if rng.chance(0.5) { m } else { -m });
             }
         }
         "single-value" => {
